@@ -13,6 +13,7 @@ mod nfwd;
 mod nc15;
 mod nmesh;
 mod nc12;
+mod nc03;
 mod nc05;
 mod ncloud;
 mod codec;
@@ -45,6 +46,7 @@ fn dispatch(args: &[String]) -> i32 {
         ("node", "fwdsched") => nfwd::run_sched(a(3), a(4), a(5)),
         ("node", "fwdrandom") => nfwd::run_random(n(3), n(4), a(5), a(6), n(7) as usize),
         ("node", "mesh") => nmesh::run(a(3), a(4), a(5)),
+        ("node", "c03") => nc03::run(a(3), a(4)),
         ("node", "c05") => nc05::run(a(3), a(4)),
         ("node", "cloud") => ncloud::run(a(3), a(4), a(5).parse().unwrap_or(0), a(6).parse().unwrap_or(0), a(7)),
         ("node", "c12") => nc12::run(a(3), a(4)),
